@@ -63,8 +63,8 @@ def cases(tier):
         w = cm.world(cm.subs(1, 0, 2), [{"kind": "env", "env": "e0", "order": "PF", "level": lvl}])
         out.append({"id": f"contract/E1-PF-{lvl}/p0", "what": "contract", "world": w, "who": "p0", "final": "Label"})
     # ---- contraction of concrete density matrices (goes through the numeric eigh) -------------------------------------
-    for who in ("p0", "c0", "env", "ps"):
-        for st in ("maxmixed", "mixed-diag", "mixed-complex", "pure-plus", "pure-basis"):
+    for who in ("p0", "f0", "c0", "env", "ps"):
+        for st in ("maxmixed", "mixed-diag", "mixed-complex", "pure-plus", "pure-minus", "pure-basis"):
             out.append({"id": f"contract-concrete/{who}/{st}", "what": "concrete", "who": who, "state": st})
     # ---- twin runs with contraction on ------------------------------------------------------------------------
     from harness import C01, C06
@@ -180,6 +180,9 @@ def _concrete(B, case):
     if who in ("p0",):
         w = cm.world(cm.subs(1, 0, 2), [{"kind": "own", "sub": "p0", "level": "M"}])
         d = 2
+    elif who == "f0":
+        w = cm.world(cm.subs(1, 0, 3), [{"kind": "own", "sub": "f0", "level": "M"}])
+        d = 3
     elif who == "c0":
         w = cm.world(cm.subs(0, 1, 2, 2), [{"kind": "own", "sub": "c0", "level": "M"}])
         d = 2
@@ -196,7 +199,12 @@ def _concrete(B, case):
            "mixed-diag": np.diag([0.7, 0.3] + [0.0] * (d - 2)),
            "mixed-complex": None,
            "pure-plus": None,
+           "pure-minus": None,
            "pure-basis": np.diag([0.0, 1.0] + [0.0] * (d - 2))}[st]
+    if st == "pure-minus":  # real amplitudes with a relative sign, first component non-zero
+        v = np.zeros((d, 1), dtype=complex)
+        v[0, 0], v[1, 0] = 0.6, -0.8
+        rho = v @ v.conj().T
     if st == "mixed-complex":
         rho = np.zeros((d, d), dtype=complex)
         rho[0, 0], rho[1, 1], rho[0, 1], rho[1, 0] = 0.6, 0.4, 0.2 - 0.1j, 0.2 + 0.1j
@@ -225,6 +233,6 @@ def _concrete(B, case):
     post = W.snapshot()
     checks.compare_unchanged(B, W, pre, post, f"C08/contract of a concrete {st} state")
     checks.check_wf(B, W, post, "C08/contract-concrete wf", unit=True)
-    b1 = post.block_of(W.sub("p0") if who != "c0" else W.sub("c0"))
+    b1 = post.block_of(W.sub(who) if who in ("c0", "f0") else W.sub("p0"))
     if st.startswith("mixed") or st == "maxmixed":
         B.require_structural(b1.level == EL.Matrix, f"C08: a mixed state was contracted to level {b1.level!r}")
